@@ -433,7 +433,7 @@ func TestMutatedFileSets(t *testing.T) {
 // ---- listed conditions: exact limits and references ----------------------------------------------------------------
 
 func TestLimitsAndReferences(t *testing.T) {
-	ev.Rule(chkLimits, "rapid: a valid file set, then exactly one listed condition: one per-type file-size limit set to the file's compressed size (must accept) and size-1 (must reject) with all other limits huge, the file read from the primary CAS or (one in two) served by an alternate source after a failed primary read; the decompression limit (size x factor) set to exactly the decompressed size (accept) and one less (reject) using whitespace padding; each referenced file in turn re-hosted under a longer URI with maxCasUriLength set to that length (accept) and one less (reject); a proof / chunk reference removed where required or added where superfluous; one entry dropped from / added to an index, proof or delta array so that counts disagree; a suffix repeated across sections; oracle: must-reject cases are rejected, must-accept cases read back; non-trivial = every case")
+	ev.Rule(chkLimits, "rapid: a valid file set, then exactly one listed condition: one per-type file-size limit set to the file's compressed size (must accept) and size-1 (must reject) with all other limits huge, the file read from the primary CAS or (one in two) served by an alternate source after a failed primary read; the decompression limit (size x factor) set to exactly the decompressed size (accept) and one less (reject) using whitespace padding (in the same gzip member or, one time in three, in a second member of the file); each referenced file in turn re-hosted under a longer URI with maxCasUriLength set to that length (accept) and one less (reject); a proof / chunk reference removed where required or added where superfluous; one entry dropped from / added to an index, proof or delta array so that counts disagree; a suffix repeated across sections; oracle: must-reject cases are rejected, must-accept cases read back; non-trivial = every case")
 	ev.Rapid(t, chkLimits, 600, 8000, func(t *rapid.T) {
 		fs := buildSet(t)
 		var present []string
@@ -511,16 +511,23 @@ func TestLimitsAndReferences(t *testing.T) {
 				role = "coreIndex"
 			}
 			viaAlt := rapid.Bool().Draw(t, "viaAlternateSource")
-			fs.put(c, role, 3000+rapid.IntRange(0, 50).Draw(t, "pad"))
+			pad := 3000 + rapid.IntRange(0, 50).Draw(t, "pad")
+			fs.put(c, role, pad)
+			if rapid.IntRange(0, 2).Draw(t, "secondGzipMember") == 0 {
+				// the padding travels in a second gzip member: a gzip file is the concatenation of its members
+				b, _ := json.Marshal(fs.json[role])
+				c.Files[fs.addr[role]] = append(gz(b), gz(bytes.Repeat([]byte(" "), pad))...)
+				c.Note = "padding in a second gzip member; "
+			}
 			raw, _ := gunzip(c.Files[fs.addr[role]])
 			d := uint(len(raw))
 			c.L.Factor = 1
 			if rapid.Bool().Draw(t, "atLimit") {
 				setLimit(role, d)
-				c.MustAccept, c.Note = true, fmt.Sprintf("%s limit x factor == decompressed size %d", role, d)
+				c.MustAccept, c.Note = true, c.Note+fmt.Sprintf("%s limit x factor == decompressed size %d", role, d)
 			} else {
 				setLimit(role, d-1)
-				c.MustReject, c.Note = "a file decompressing to more than limit x factor", fmt.Sprintf("%s limit x factor == decompressed size %d - 1", role, d)
+				c.MustReject, c.Note = "a file decompressing to more than limit x factor", c.Note+fmt.Sprintf("%s limit x factor == decompressed size %d - 1", role, d)
 			}
 			if viaAlt {
 				c.FailRead, c.Alt = []string{fs.addr[role]}, true
